@@ -505,7 +505,13 @@ class Prog:
     def point(self):
         r = self.rnd.random()
         if r < .4 or len(self.P) < 2:
-            n = self.newp(); self.emit("pt.leaf %s" % n) if self.rnd.random() < .8 else self.emit("pt.leafn %s nm%s" % (n, n)); return n
+            n = self.newp()
+            u_ = self.rnd.random()
+            if getattr(self, "shared_labels", False) and u_ < .6: u_ = .95
+            if u_ < .75: self.emit("pt.leaf %s" % n)
+            elif u_ < .9: self.emit("pt.leafn %s nm%s" % (n, n))
+            else: self.emit("pt.leafn %s %s" % (n, self.rnd.choice(["x", "x", "Point_1", "y"])))      # labels shared by several points, or equal to a default id
+            return n
         a, b = self.rnd.choice(self.P), self.rnd.choice(self.P); n = self.newp()
         self.emit("pt.lin %s %s %s %s %s" % (n, self.rnd.choice(W), a, self.rnd.choice(W), b)); return n
     def sample_ops(self, f, k):
@@ -527,7 +533,10 @@ class Prog:
 def gen_class(seed):
     rnd = random.Random(seed); p = Prog(rnd)
     cls = rnd.choice(list(CLASSES) + ["BlockSmoothConvexFunction"])
+    focus = os.environ.get("PEPV_CLS_FOCUS")
+    if focus and rnd.random() < .5: cls = rnd.choice(focus.split(","))
     for _ in range(rnd.randint(1, 2)): p.point()
+    if rnd.random() < .25: p.shared_labels = True          # several sample points carry the same label
     if cls == "BlockSmoothConvexFunction":
         d = rnd.randint(1, 3); p.emit("%s b1 %d" % (rnd.choice(["part.decl", "part.decl", "part.new"]), d)); f = p.decl(cls, partition=("b1", d))
     else:
@@ -549,11 +558,14 @@ def gen_class(seed):
 def gen_collect(seed):
     rnd = random.Random(seed); p = Prog(rnd)
     for _ in range(2): p.point()
-    nb = rnd.randint(0, 1)
-    if nb: p.emit("%s b1 %d" % (rnd.choice(["part.decl", "part.decl", "part.new"]), rnd.randint(1, 3)))
+    nb = rnd.randint(0, 1); nb2 = 0
+    if nb:
+        d_ = rnd.randint(1, 3); p.emit("%s b1 %d" % (rnd.choice(["part.decl", "part.decl", "part.new"]), d_))
+        if rnd.random() < .4: nb2 = 1; p.emit("part.decl b2 %d" % rnd.choice([d_, d_, rnd.randint(1, 3)]))     # a second, independent partition (often with as many blocks)
     for _ in range(rnd.randint(1, 3)):
         cls = rnd.choice(list(CLASSES))
         p.decl(cls)
+    if nb and rnd.random() < .4: p.decl("BlockSmoothConvexFunction", partition=("b1", d_))
     leaves = list(p.F)
     for _ in range(rnd.randint(0, 2)):
         a, b = rnd.choice(p.F), rnd.choice(p.F); n = p.newf(); p.emit("fn.lin %s %s %s %s %s" % (n, rnd.choice(W), a, rnd.choice(W), b))
@@ -566,6 +578,9 @@ def gen_collect(seed):
     if nb:
         for _ in range(rnd.randint(1, 3)):
             x = rnd.choice(p.P); n = p.newp(); p.emit("part.block %s b1 %s 0" % (n, x))
+        if nb2:
+            for _ in range(rnd.randint(1, 2)):
+                x = rnd.choice(p.P); n = p.newp(); p.emit("part.block %s b2 %s 0" % (n, x))
     def expr():
         a, b = rnd.choice(p.P), rnd.choice(p.P); n = p.newe(); p.emit("ex.ip %s %s %s" % (n, a, b))
         if len(p.E) > 1 and rnd.random() < .5:
